@@ -111,6 +111,7 @@ type fnCtx struct {
 	strlits map[string]string
 	flags   map[string]string
 	fired   map[int]bool
+	anchorLines map[int][]int
 	implDone map[string]bool
 	rets    []retSite
 	params  []ParamInfo
